@@ -88,6 +88,38 @@ def abstract(kind):
     return a
 
 
+def insert_valid(t, parent, child):
+    """Insert child at the first index for which TLC's automaton of the parent's rule accepts the child names."""
+    d = t.dfas[t.node_map[parent.name]]
+    names = [c.name for c in parent.children]
+    for i in range(len(names) + 1):
+        w = names[:i] + [child.name] + names[i:]
+        if all(a in d.sigma for a in w) and d.out[d.run(w)] == "ACCEPT":
+            parent.add_child(child, index=i)
+            return True
+    return False
+
+
+def attribute_methods(t, attribute_list, variant):
+    """attribute/methods/methodStep/(description, dataSource(title, creator, contact)): rule-bearing nodes deep below attributeList"""
+    attr = attribute_list.find_child("attribute")
+    if attr is None:
+        return
+    bare = variant == "parties-bare"
+    ds = Node("dataSource")
+    ds.add_child(Node("title", content="source data set of the attribute"))
+    ds.add_child(party("creator", "none" if bare else "orcid", not bare, not bare))
+    ds.add_child(party("contact", "none" if bare else "other-directory", not bare, True))
+    ms = Node("methodStep")
+    dsc = Node("description")
+    dsc.add_child(Node("para", content="how the attribute was measured"))
+    ms.add_child(dsc)
+    ms.add_child(ds)
+    m = Node("methods")
+    m.add_child(ms)
+    insert_valid(t, attr, m)
+
+
 def data_table(t, g, tb):
     dt = Node("dataTable")
     dt.add_child(Node("entityName", content="table-1"))
@@ -112,7 +144,24 @@ def data_table(t, g, tb):
     df.add_child(tf)
     ph.add_child(df)
     dt.add_child(ph)
-    dt.add_child(g.gen("attributeList", depth=g.max_depth - 1))
+    if tb.get("attrMethods", "none") != "none":
+        al = Node("attributeList")
+        at = Node("attribute")
+        at.add_child(Node("attributeName", content="site"))
+        at.add_child(Node("attributeDefinition", content="site code"))
+        sc = Node("measurementScale")
+        cur = sc
+        for nm in ("nominal", "nonNumericDomain", "textDomain"):
+            nx = Node(nm)
+            cur.add_child(nx)
+            cur = nx
+        cur.add_child(Node("definition", content="any text"))
+        at.add_child(sc)
+        al.add_child(at)
+        attribute_methods(t, al, tb["attrMethods"])
+    else:
+        al = g.gen("attributeList", depth=g.max_depth - 1)
+    dt.add_child(al)
     if tb["nrec"]:
         dt.add_child(Node("numberOfRecords", content="10"))
     return dt
